@@ -951,3 +951,53 @@ func RejOrig(k, n int) int {
 	}
 	return x
 }
+
+type CM struct{ v int }
+
+//go:noinline
+func (c *CM) M0(a int) int { return c.v + a*2 + 9000 + pad*3 }
+
+//go:noinline
+func (c *CM) M1(a int) int { return c.v + a*3 + 9001 + pad*3 }
+
+//go:noinline
+func (c *CM) M2(a int) int { return c.v + a*4 + 9002 + pad*3 }
+
+//go:noinline
+func (c *CM) M3(a int) int { return c.v + a*5 + 9003 + pad*3 }
+
+//go:noinline
+func (c *CM) M4(a int) int { return c.v + a*6 + 9004 + pad*3 }
+
+//go:noinline
+func (c *CM) M5(a int) int { return c.v + a*7 + 9005 + pad*3 }
+
+//go:noinline
+func (c *CM) M6(a int) int { return c.v + a*8 + 9006 + pad*3 }
+
+//go:noinline
+func (c *CM) M7(a int) int { return c.v + a*9 + 9007 + pad*3 }
+
+//go:noinline
+func (c *CM) M8(a int) int { return c.v + a*10 + 9008 + pad*3 }
+
+//go:noinline
+func (c *CM) M9(a int) int { return c.v + a*11 + 9009 + pad*3 }
+
+//go:noinline
+func (c *CM) M10(a int) int { return c.v + a*12 + 9010 + pad*3 }
+
+//go:noinline
+func (c *CM) M11(a int) int { return c.v + a*13 + 9011 + pad*3 }
+
+type CI interface {
+	Get(a int) int
+	Name() string
+}
+
+var IVars [12]CI
+
+var CMCall = []func(int) int{func(a int) int { return (&CM{v: 1}).M0(a) }, func(a int) int { return (&CM{v: 1}).M1(a) }, func(a int) int { return (&CM{v: 1}).M2(a) }, func(a int) int { return (&CM{v: 1}).M3(a) }, func(a int) int { return (&CM{v: 1}).M4(a) }, func(a int) int { return (&CM{v: 1}).M5(a) }, func(a int) int { return (&CM{v: 1}).M6(a) }, func(a int) int { return (&CM{v: 1}).M7(a) }, func(a int) int { return (&CM{v: 1}).M8(a) }, func(a int) int { return (&CM{v: 1}).M9(a) }, func(a int) int { return (&CM{v: 1}).M10(a) }, func(a int) int { return (&CM{v: 1}).M11(a) }}
+var CMName = []string{"M0", "M1", "M2", "M3", "M4", "M5", "M6", "M7", "M8", "M9", "M10", "M11"}
+
+func CMOrig(k, a int) int { return 1 + a*(k+2) + 9000 + k }
